@@ -392,6 +392,35 @@ func (e *detExec) files(g *genNet, ctx string, ref detOut, seen map[string]bool)
 			e.add("c15-files-panic", sprintf("%s: %v", ctx, p))
 		}
 	}()
+	// the per-bus workers of ExportNetwork under several CPU counts (fewer CPUs than buses,
+	// a bus count that is not a multiple of the CPU count, one CPU): every file must be the
+	// ExportBus output of its bus
+	prevProcs := runtime.GOMAXPROCS(0)
+	for _, procs := range []int{1, 2, 3} {
+		runtime.GOMAXPROCS(procs)
+		fp, err := exportNetworkFiles(g.net)
+		runtime.GOMAXPROCS(prevProcs)
+		if err != nil {
+			if !seen["c15-files-error"] {
+				seen["c15-files-error"] = true
+				e.add("c15-files-error", sprintf("%s: ExportNetwork under GOMAXPROCS=%d: %v", ctx, procs, err))
+			}
+			continue
+		}
+		for i, b := range g.net.Buses() {
+			if i >= len(ref.dbc) {
+				break
+			}
+			found := false
+			for _, content := range fp {
+				found = found || bytes.Equal(content, ref.dbc[i])
+			}
+			if !found && !seen["c15-files-differ"] {
+				seen["c15-files-differ"] = true
+				e.add("c15-files-differ", sprintf("%s: GOMAXPROCS=%d, %d buses: no file holds the ExportBus output of bus %q", ctx, procs, len(g.net.Buses()), b.Name()))
+			}
+		}
+	}
 	f1, err := exportNetworkFiles(g.net)
 	if err != nil {
 		seen["c15-files-error"] = true
